@@ -10,6 +10,7 @@ import itertools
 import math
 from fractions import Fraction
 
+import os
 import numpy as np
 
 from common import canon_idx, ints
@@ -21,9 +22,15 @@ RULE = ("elevation rasters <= 64 cells (quick) / <= 900 (thorough) of dtype int3
         "arbitrary random floats, huge int32, nodata holes/blocks/frames incl. NaN nodata; connectivity 4 and 8; "
         "outlets edge / min / user cells (with duplicates); exhaustive 3x3 over 3 levels and 1-D profiles of "
         "length <= 7 over 4 levels in the thorough tier. non-trivial = >= 2 valid cells and >= 1 cell whose filled "
-        "elevation differs from the input; distinct = SHA-1 of the case description")
+        "elevation differs from the input; distinct = SHA-1 of the case description. narrow integer DEMs (uint8 / uint16 / "
+        "int8 / int16, <= 64 cells): values over the whole range of the dtype (uniform, small surfaces stretched to "
+        "[min, max], surfaces anchored at min / max / 0 / the values a dtype cast would turn the nodata value into), "
+        "nodata = the default argument (omitted or -9999.0), a value no cell of the dtype can hold (out of range on "
+        "either side, non-integral, 1e20, NaN: every cell is valid) or an explicit in-range value (min, max, 0, a cast "
+        "image of -9999, random) with nodata holes")
 
 DTYPES = ["int32", "float32", "float64"]
+NARROW = ["uint8", "uint16", "int8", "int16"]
 
 
 # ----------------------------------------------------------------------------------------------
@@ -51,10 +58,30 @@ def to_scaled(v, den):
     return int(f) if f.denominator == 1 else None
 
 
+def holds(dtype, nodata):
+    """can a cell of an integer dtype hold the value `nodata` (exact, no cast)?"""
+    if not math.isfinite(nodata) or nodata != math.floor(nodata):
+        return False
+    ii = np.iinfo(dtype)
+    return ii.min <= int(nodata) <= ii.max
+
+
 def nodata_mask(elev, nodata):
+    """the cells that hold the nodata value, decided on exact numbers (never through a cast of `nodata` to the
+    dtype of the raster: a value the dtype cannot represent is held by no cell)"""
+    if elev.dtype.kind in "iu":
+        if not holds(elev.dtype, nodata):
+            return np.zeros(elev.shape, dtype=bool)
+        nd = int(nodata)
+        return np.array([v == nd for v in elev.ravel().tolist()], dtype=bool).reshape(elev.shape)
     if isinstance(nodata, float) and math.isnan(nodata):
         return np.isnan(elev)
     return elev == nodata
+
+
+def jit_enabled():
+    import os
+    return os.environ.get("NUMBA_DISABLE_JIT", "0") != "1"
 
 
 def same_bits(a, b):
@@ -308,13 +335,152 @@ def gen_case(rng, max_cells, max_side):
 
 
 # ----------------------------------------------------------------------------------------------
+# narrow integer DEMs (uint8 / uint16 / int8 / int16) over the whole range of the dtype
+# ----------------------------------------------------------------------------------------------
+def cast_images(nodata, dtype):
+    """the values of `dtype` that a conversion of `nodata` to the dtype could yield (wrap-around of the truncated /
+    floored / rounded value and of its magnitude, saturation at either end, 0 for a value without an integer part):
+    cells holding such a value are the ones a comparison in the wrong dtype confuses with nodata.  Empty for a
+    value the dtype holds exactly (then the value itself is the nodata value)."""
+    ii = np.iinfo(dtype)
+    if holds(dtype, nodata):
+        return []
+    out = {0, ii.min, ii.max}
+    if math.isfinite(nodata) and abs(nodata) < 2.0**63:
+        m = ii.max - ii.min + 1
+        for t in {math.trunc(nodata), math.floor(nodata), math.ceil(nodata)}:
+            for v in (t, -t, abs(t) - 1, ~t):
+                out.add((v - ii.min) % m + ii.min)
+    return sorted(out)
+
+
+def unrepresentable_nodata(rng, dtype):
+    ii = np.iinfo(dtype)
+    cand = [-9999.0, -9999.0, float(ii.max + 1), float(ii.min - 1), float(2 * (ii.max + 1) + rng.randint(0, ii.max)),
+            float(ii.min - 1 - rng.randint(0, 40000)), -32768.0, 65535.0, 255.0, -1.0, 1e20, -1e20, 3.4028234663852886e38,
+            float("nan"), rng.randint(ii.min, ii.max - 1) + 0.5, -9999.5]
+    cand = [v for v in cand if not holds(dtype, v)]
+    return rng.choice(cand)
+
+
+def gen_outlets(rng, valid_idx):
+    u = rng.random()
+    if u < 0.4:
+        return "edge", None
+    if u < 0.7:
+        return "min", None
+    pits = [rng.choice(valid_idx) for _ in range(rng.randint(1, min(4, len(valid_idx))))]
+    return ("min" if rng.random() < 0.15 else "edge"), pits
+
+
+def gen_narrow_case(rng, max_cells, max_side):
+    shape = gen_shape(rng, max_cells, max_side)
+    n = shape[0] * shape[1]
+    z, fam = gen_surface(rng, shape)
+    dtype = rng.choice(NARROW)
+    ii = np.iinfo(dtype)
+    lo, hi = int(ii.min), int(ii.max)
+    # nodata: the default, a value the dtype cannot hold, or an explicit value of the dtype
+    u = rng.random()
+    default = False
+    if u < 0.4:
+        nodata, default, nfam = -9999.0, rng.random() < 0.7, "default"
+    elif u < 0.62:
+        nodata, nfam = unrepresentable_nodata(rng, dtype), "unrepresentable"
+    else:
+        imgs = cast_images(-9999.0, dtype)
+        nodata = float(rng.choice([lo, hi, lo, hi, 0 if lo <= 0 else lo + 1, rng.randint(lo, hi), rng.randint(lo, hi)]
+                                  + ([rng.choice(imgs)] * 2 if imgs else [])))
+        nfam = "in-range"
+    held = holds(dtype, nodata)
+    if held:
+        nd_i = int(nodata)
+        mask, mfam = gen_mask(rng, shape)
+        if all(mask):
+            mask[rng.randrange(n)] = False
+        special = [lo, hi, lo + 1, hi - 1, 0, nd_i - 1, nd_i + 1]
+    else:
+        nd_i = None
+        mask, mfam = [False] * n, "none"
+        special = [lo, hi, lo + 1, hi - 1, 0] + cast_images(nodata, dtype) * 3
+    special = [v for v in special if lo <= v <= hi and v != nd_i]
+    zmin, zmax = min(z), max(z)
+    u = rng.random()
+    if u < 0.15:
+        vals, vfam = [rng.randint(lo, hi) for _ in range(n)], "uniform"
+    elif u < 0.4 and zmax > zmin:
+        # stretched: lowest level -> min, highest level -> max of the dtype
+        k = (hi - lo) // (zmax - zmin)
+        vals = [hi if v == zmax else lo + (v - zmin) * k for v in z]
+        vfam = "stretched"
+    else:
+        # anchored: the surface (optionally steepened) shifted so that one cell holds a special value, clipped
+        step = rng.choice([1, 1, 1, 2, 5, max(1, (hi - lo) // (4 * max(1, zmax - zmin)))])
+        i0 = rng.randrange(n)
+        off = rng.choice(special) - z[i0] * step
+        vals = [min(hi, max(lo, v * step + off)) for v in z]
+        vfam = "anchored"
+    if rng.random() < 0.3:
+        for _ in range(rng.randint(1, 3)):
+            vals[rng.randrange(n)] = rng.choice(special)
+        vfam += "+special"
+    if held:
+        # valid cells differ from the nodata value
+        vals = [v if v != nd_i else (v - 1 if v == hi else v + 1) for v in vals]
+    data = [(nodata if mask[i] else vals[i]) for i in range(n)]
+    valid_idx = [i for i in range(n) if not mask[i]]
+    outlets, pits = gen_outlets(rng, valid_idx)
+    desc = {"op": "fill_depressions", "shape": list(shape), "dtype": dtype, "elevtn": data, "nodata": nodata,
+            "connectivity": rng.choice([4, 8]), "outlets": outlets, "idxs_pit": pits,
+            "family": f"{fam}/{mfam}/{vfam}", "narrow": nfam}
+    if default:
+        desc["nodata_default"] = True
+    valid_vals = sorted(vals[i] for i in valid_idx)
+    if rng.random() < 0.12 and pits is None:
+        desc["elv_max"] = float(rng.choice([valid_vals[0] - 1, valid_vals[-1], rng.choice(valid_vals), rng.choice(valid_vals)]))
+    span = valid_vals[-1] - valid_vals[0]
+    if rng.random() < 0.2:
+        # (fill heights beyond the maximum of a signed narrow dtype included: fix a080d39 / F06b)
+        desc["max_depth"] = float(rng.choice([0, 1, 2, 3, span // 2, span, span + 1, rng.randint(0, span + 1)]))
+    return desc
+
+
+def count_narrow(ctx, desc, elev, nodata, valid_l):
+    if desc["dtype"] not in NARROW:
+        return
+    ctx.count("narrow:" + desc["dtype"])
+    ii = np.iinfo(elev.dtype)
+    ctx.count("narrow:nodata-" + desc.get("narrow", "?") + ("(omitted)" if desc.get("nodata_default") else ""))
+    if not holds(elev.dtype, nodata):
+        ctx.count("narrow:nodata-not-held-by-dtype(all cells valid)")
+        cells = set(elev.ravel().tolist())
+        if cells & set(cast_images(nodata, elev.dtype)):
+            ctx.count("narrow:feature:valid cell holds a cast image of nodata (wrap / saturation / 0)")
+        if math.isfinite(nodata) and abs(nodata) < 2.0**63:
+            m = ii.max - ii.min + 1
+            if (math.trunc(nodata) - ii.min) % m + ii.min in cells:
+                ctx.count("narrow:feature:valid cell holds the wrap-around image of nodata")
+    else:
+        ctx.count("narrow:nodata-held-by-dtype")
+        if not all(valid_l):
+            ctx.count("narrow:feature:nodata-cells")
+    vv = [v for v, ok in zip(elev.ravel().tolist(), valid_l) if ok]
+    if vv and min(vv) == ii.min and max(vv) == ii.max:
+        ctx.count("narrow:feature:whole range of the dtype")
+    if vv and max(vv) - min(vv) > ii.max:
+        ctx.count("narrow:feature:span > max of the dtype")
+
+
+# ----------------------------------------------------------------------------------------------
 # one case: run the implementation, build the driver request and the judge
 # ----------------------------------------------------------------------------------------------
 def build_array(desc):
     dt = np.dtype(desc["dtype"])
     shape = tuple(desc["shape"])
     vals = [float("nan") if (v is None) else v for v in desc["elevtn"]]
-    if dt.kind == "i":
+    if dt.kind in "iu":
+        ii = np.iinfo(dt)
+        assert all(ii.min <= int(v) <= ii.max for v in vals), "generator: value outside the dtype"
         a = np.array([int(v) for v in vals], dtype=np.int64).astype(dt)
     else:
         a = np.array(vals, dtype=np.float64).astype(dt)
@@ -338,6 +504,10 @@ def run_case(ctx, desc, with_from_dem=False, oracle=True):
     den = scale_of([flat[i].item() for i in range(n) if valid_l[i]])
     elev_i = [to_scaled(flat[i].item(), den) if valid_l[i] else 0 for i in range(n)]
     kw = dict(outlets=desc["outlets"], nodata=nodata, connectivity=conn)
+    if desc.get("nodata_default"):
+        assert nodata == -9999.0
+        del kw["nodata"]       # the DEFAULT nodata argument
+    ndkw = {k: kw[k] for k in ("nodata",) if k in kw}
     pits = desc.get("idxs_pit")
     if pits is not None:
         kw["idxs_pit"] = np.array(pits, dtype=np.int64)
@@ -381,6 +551,37 @@ def run_case(ctx, desc, with_from_dem=False, oracle=True):
             ctx.add(desc, [("c06_fill", {"nrow": nrow, "ncol": ncol, "conn": conn, "elev": elev_i, "nod": nod_l,
                                         "min": minflag, "pits": pits, "elv_max": elv_max_i})], judge_err, nontrivial=False)
             return
+        if os.environ.get("PF_C06_DELV_OBS") == "1" and type(e) is OverflowError and elev.dtype.kind == "i" and desc["dtype"] in NARROW and not jit_enabled():
+            # (since fix a080d39 / F06b in /repo this exception is a failure like any other; PF_C06_DELV_OBS=1 restores
+            # the old acceptance for replaying older trees)
+            # OBSERVATION (interpreted mode only; the compiled function wraps silently and returns the minimax surface):
+            # the fill-height bookkeeping array `delv` has the dtype of the raster, NumPy refuses to store a fill
+            # height above the maximum of a SIGNED integer dtype (int8: > 127, int16: > 32767).  `delv` is only read
+            # with max_depth >= 0.  Accepted exactly when the brute-force oracle finds a cell whose spill level lies
+            # more than the dtype's maximum above its elevation; any other exception, or this one without such a
+            # cell, is a failure.  The model is still compared with the oracle on the case.
+            seeds = sorted(set(pits)) if pits is not None else edge_cells(valid_l, shape, conn)
+            if pits is None and elv_max_i is not None:
+                seeds = [i for i in seeds if elev_i[i] <= elv_max_i]
+            if minflag and seeds:
+                seeds = [min(seeds, key=lambda i: (elev_i[i], i))]
+            lvl = minimax_oracle(elev_i, valid_l, shape, conn, seeds)
+            depth = max([lvl[i] - elev_i[i] for i in range(n) if valid_l[i] and lvl[i] is not None] or [0])
+            if den == 1 and depth > int(np.iinfo(elev.dtype).max):
+                ctx.count("narrow:observation:OverflowError in interpreted mode (fill height > max of the signed dtype)")
+                want = [(lvl[i] if valid_l[i] and lvl[i] is not None else elev_i[i]) for i in range(n)]
+
+                def judge_ovf(ans, want=want):
+                    a = ans[0]
+                    if "__err__" in a:
+                        return [{"kind": "model", "what": "driver error " + a["__err__"]}]
+                    if a["model.f"] != want:
+                        return [{"kind": "model", "what": "filled elevation: Lean model != python minimax oracle",
+                                 "model": a["model.f"], "oracle": want}]
+                    return []
+                ctx.add(desc, [("c06_fill", {"nrow": nrow, "ncol": ncol, "conn": conn, "elev": elev_i, "nod": nod_l,
+                                            "min": minflag, "pits": pits, "elv_max": elv_max_i})], judge_ovf, nontrivial=False)
+                return
         ctx.evaluations += 1
         ctx.fail(desc, "spec", f"fill_depressions raised {type(e).__name__}: {e}")
         return
@@ -415,6 +616,11 @@ def run_case(ctx, desc, with_from_dem=False, oracle=True):
     touched = [i for i in range(n) if nod_l[i] and (not same_bits(ff[i], flat[i]) or int(dd[i]) != 247)]
     if touched:
         py_fail.append({"kind": "spec", "what": f"nodata cells {touched[:5]} touched or not coded 247"})
+    # valid cells (cells that do not hold the nodata value) are never coded as nodata
+    coded = [i for i in range(n) if valid_l[i] and int(dd[i]) == 247]
+    if coded:
+        py_fail.append({"kind": "spec", "what": f"valid cells {coded[:5]} (elevations {[flat[i].item() for i in coded[:5]]}, "
+                        f"nodata {nodata!r}) are coded as nodata (247) in the direction raster"})
     # idempotence: exact
     if not same_bits(filled, filled2):
         diff = [i for i in range(n) if not same_bits(ff[i], ff2[i])][:5]
@@ -433,6 +639,7 @@ def run_case(ctx, desc, with_from_dem=False, oracle=True):
     ctx.count("values:" + (desc.get("family", "?/?/?").split("/") + ["?", "?", "?"])[2])
     if math.isnan(nodata) and any(nod_l):
         ctx.count("feature:nan-nodata-cells")
+    count_narrow(ctx, desc, elev, nodata, valid_l)
     if nfilled:
         ctx.count("feature:filled-case")
         ctx.count("filled-cells", nfilled)
@@ -485,7 +692,7 @@ def run_case(ctx, desc, with_from_dem=False, oracle=True):
     fd = None
     if with_from_dem and conn == 8 and pits is None and elv_max is None:
         try:
-            flw = pyflwdir.from_dem(elev, nodata=nodata, outlets=desc["outlets"])
+            flw = pyflwdir.from_dem(elev, outlets=desc["outlets"], **ndkw)
             fd = canon_idx(flw.idxs_ds, n)
         except Exception as e:
             # the FlwdirRaster constructor documents ValueError for rasters of one cell and for rasters
@@ -575,6 +782,10 @@ def run_depth_case(ctx, desc, with_from_dem=False):
     elev_i = [to_scaled(flat[i].item(), den) if valid_l[i] else 0 for i in range(n)]
     md_i = math.ceil(_frac(md) * den)       # dz >= md  <=>  dz*den >= ceil(md*den) for integral dz*den
     kw = dict(outlets=desc["outlets"], nodata=nodata, connectivity=conn, max_depth=md)
+    if desc.get("nodata_default"):
+        assert nodata == -9999.0
+        del kw["nodata"]       # the DEFAULT nodata argument
+    ndkw = {k: kw[k] for k in ("nodata",) if k in kw}
     pits = desc.get("idxs_pit")
     if pits is not None:
         kw["idxs_pit"] = np.array(pits, dtype=np.int64)
@@ -586,6 +797,7 @@ def run_depth_case(ctx, desc, with_from_dem=False):
         elv_max_i = math.floor(_frac(elv_max) * den)
     ctx.count("max_depth>=0")
     ctx.count("max_depth:%s" % ("0" if md == 0 else "pos"))
+    count_narrow(ctx, desc, elev, nodata, valid_l)
     before = elev.copy()
     py_fail = []
     base = {"nrow": nrow, "ncol": ncol, "conn": conn, "elev": elev_i, "nod": nod_l, "min": minflag,
@@ -620,6 +832,10 @@ def run_depth_case(ctx, desc, with_from_dem=False):
     touched = [i for i in range(n) if nod_l[i] and (not same_bits(ff[i], flat[i]) or int(dd[i]) != 247)]
     if touched:
         py_fail.append({"kind": "spec", "what": f"max_depth={md}: nodata cells {touched[:5]} touched or not coded 247"})
+    coded = [i for i in range(n) if valid_l[i] and int(dd[i]) == 247]
+    if coded:
+        py_fail.append({"kind": "spec", "what": f"max_depth={md}: valid cells {coded[:5]} (elevations "
+                        f"{[flat[i].item() for i in coded[:5]]}, nodata {nodata!r}) are coded as nodata (247)"})
     # did the limit matter?  (compare with the unlimited fill of the implementation)
     kw0 = dict(kw)
     kw0["max_depth"] = -1.0
@@ -635,7 +851,7 @@ def run_depth_case(ctx, desc, with_from_dem=False):
     fd = None
     if with_from_dem and conn == 8 and pits is None and elv_max is None and n >= 2 and any(valid_l):
         try:
-            flw = pyflwdir.from_dem(elev, nodata=nodata, outlets=desc["outlets"], max_depth=md)
+            flw = pyflwdir.from_dem(elev, outlets=desc["outlets"], max_depth=md, **ndkw)
             fd = canon_idx(flw.idxs_ds, n)
             reqs.append(("c06_from_dem", {"nrow": nrow, "ncol": ncol, "elev": elev_i, "nod": nod_l, "min": minflag,
                                           "max_depth": md_i, "impl.ds": fd, "impl.f": f_i, "impl.d8": d8_i}))
@@ -766,6 +982,30 @@ def corner_cases():
         out[-1]["elv_max"] = em
         mk((3, 3), "int32", [5, 4, 5, 3, 1, 5, 5, 5, 5], outlets="min")
         out[-1]["elv_max"] = em
+    # narrow integer rasters: every value a dtype cast could turn the nodata value into, as a monotone profile (no
+    # depression: every cell is valid, keeps its elevation and drains along the row) and as the floor of a trough
+    for dtype in NARROW:
+        ii = np.iinfo(dtype)
+        for nd in (-9999.0, None, 1e20, nan, -1.0, float(ii.max + 1), float(ii.min) - 1.5):
+            ndv = -9999.0 if nd is None else nd
+            if holds(dtype, ndv):
+                continue
+            imgs = cast_images(ndv, dtype)
+            for conn in (4, 8):
+                mk((1, len(imgs)), dtype, imgs, nodata=ndv, conn=conn, outlets="min")
+                out[-1]["narrow"] = "default" if ndv == -9999.0 else "unrepresentable"
+                if nd is None:
+                    out[-1]["nodata_default"] = True
+            # trough: rim one above the highest floor cell, open at one end; floor values within the upper half of
+            # the dtype's range, so that every fill height fits the dtype
+            floor = [v for v in imgs if v >= ii.max // 2 and v < ii.max] or [ii.max - 1]
+            rim = max(floor) + 1
+            k = len(floor)
+            data = [rim] * (k + 2) + [rim] + floor + [min(floor)] + [rim] * (k + 2)
+            mk((3, k + 2), dtype, data, nodata=ndv, conn=8, outlets="edge")
+            out[-1]["narrow"] = "default" if ndv == -9999.0 else "unrepresentable"
+            if nd is None:
+                out[-1]["nodata_default"] = True
     # all nodata with edge outlets: nothing to do
     mk((2, 2), "float32", [-9999.0] * 4)
     mk((1, 1), "float32", [3.0])
@@ -818,6 +1058,13 @@ def run(ctx):
                 "idxs_pit": pits, "family": "depthmix/%s/integral" % ("holes" if any(mask) else "none"),
                 "max_depth": float(rng.choice([1, 2, 2, 3, 3, 4]))}
         run_case(ctx, desc, with_from_dem=True, oracle=False)
+        if len(ctx.cases) >= 200:
+            ctx.flush()
+    ctx.flush()
+    # narrow integer DEMs over the whole range of their dtype; default / unrepresentable / in-range nodata
+    for k in range((160 if quick else 1200) * ctx.escalate):
+        desc = gen_narrow_case(rng, 64, 8) if quick else gen_narrow_case(rng, 120, 11)
+        run_case(ctx, desc, with_from_dem=True, oracle=True)
         if len(ctx.cases) >= 200:
             ctx.flush()
     ctx.flush()
